@@ -48,7 +48,45 @@ fn faulty_net(rng: &mut Rng, fault_ns: u64, harsh: bool) -> NetCfg {
     NetCfg { latency_ms: *rng.pick(&[0u64, 1, 10, 50, 150]), phases, drop_rules: Vec::new(), handshake_faults_only: false }
 }
 
+/// C07 ("the random nonce the server sent it"): the nonces a server hands out must not follow from
+/// one another. The sequence of distinct server nonces of the session (in the order they first
+/// appeared in a SYN-ACK) is run past the predictors an observer of two earlier handshakes would
+/// try: same again, +1, the same step again (arithmetic), the same xor again, a bit rotation.
+/// Two hits in one session are reported (one hit by chance: < 2^-28 per session; two: < 2^-56).
+fn check_server_nonces_unpredictable(w: &mut World) {
+    let srv = w.server.addr;
+    let mut seen: Vec<(SocketAddr, u32)> = Vec::new();
+    let mut seq: Vec<u32> = Vec::new();
+    for r in w.wire.iter() {
+        if r.src == srv && !r.injected {
+            if let Some(RFrame::SynAck { nonce, .. }) = r.frame {
+                if !seen.contains(&(r.dst, nonce)) {
+                    seen.push((r.dst, nonce));
+                    seq.push(nonce);
+                }
+            }
+        }
+    }
+    if seq.len() < 4 {
+        return;
+    }
+    w.c.inc("c07_sessions_with_4_or_more_server_nonces");
+    w.c.add("c07_server_nonces_tested_for_predictability", seq.len() as i128);
+    let mut hits: Vec<String> = Vec::new();
+    for k in 2..seq.len() {
+        let (a, b, c) = (seq[k - 2], seq[k - 1], seq[k]);
+        let guesses = [("the previous nonce again", b), ("the previous nonce + 1", b.wrapping_add(1)), ("the previous nonce - 1", b.wrapping_sub(1)), ("the previous step again", b.wrapping_add(b.wrapping_sub(a))), ("the nonce before the previous one", a), ("the previous nonce rotated by one bit", b.rotate_left(1)), ("the previous nonce rotated by one bit", b.rotate_right(1))];
+        if let Some(g) = guesses.iter().find(|g| g.1 == c) {
+            hits.push(format!("nonce #{} = {:#010x} is {} (#{} = {:#010x}, #{} = {:#010x})", k, c, g.0, k - 2, a, k - 1, b));
+        }
+    }
+    if hits.len() >= 2 {
+        w.viol("C07", "server-nonces-predictable", format!("{} of the {} nonces this server handed out follow from the two before them: {}; whoever has seen two handshakes can answer a SYN-ACK it never received", hits.len(), seq.len(), hits[..2].join("; ")));
+    }
+}
+
 fn world_out(out: &mut ScnOut, w: &mut World, nontrivial: bool, sig_extra: u64, sample: Option<J>) {
+    check_server_nonces_unpredictable(w);
     out.evals += 1;
     if nontrivial {
         out.nontrivial += 1;
@@ -384,7 +422,7 @@ fn check_disconnect(w: &mut World, ci: usize, t_end_ns: u64) -> bool {
     // the Connect of the server-side instance matched above
     let s_conn_t = sev.iter().find(|e| e.ev == Ev::Connect).map(|e| e.t_ns);
     let c_gone = w.clients[ci].dropped_ns.unwrap_or(u64::MAX);
-    let t0 = w.wire.iter().find(|r| !r.injected && matches!(r.frame, Some(RFrame::Disconnect)) && ((r.src == addr && r.dst == srv && r.t_ns >= created && r.t_ns <= c_gone) || (r.src == srv && r.dst == addr && s_conn_t.map_or(false, |t| r.t_ns >= t)))).map(|r| r.t_ns);
+    let t0 = w.wire.iter().find(|r| !r.injected && !r.refused && matches!(r.frame, Some(RFrame::Disconnect)) && ((r.src == addr && r.dst == srv && r.t_ns >= created && r.t_ns <= c_gone) || (r.src == srv && r.dst == addr && s_conn_t.map_or(false, |t| r.t_ns >= t)))).map(|r| r.t_ns);
     if let Some(t0) = t0 {
         w.c.inc("c09_disconnect_exchanges");
         let sides: [(&Vec<EvRec>, u64, u64, &str, bool); 2] = [
@@ -401,7 +439,7 @@ fn check_disconnect(w: &mut World, ci: usize, t_end_ns: u64) -> bool {
             }
             // an endpoint that started a disconnect of its own later than t0 (requests crossing
             // on a lossy link) gets the retry budget of its own request
-            let own_first = w.wire.iter().find(|r| !r.injected && matches!(r.frame, Some(RFrame::Disconnect)) && if *name == "client" { r.src == addr && r.dst == srv && r.t_ns >= created && r.t_ns <= c_gone } else { r.src == srv && r.dst == addr && s_conn_t.map_or(false, |t| r.t_ns >= t) }).map(|r| r.t_ns);
+            let own_first = w.wire.iter().find(|r| !r.injected && !r.refused && matches!(r.frame, Some(RFrame::Disconnect)) && if *name == "client" { r.src == addr && r.dst == srv && r.t_ns >= created && r.t_ns <= c_gone } else { r.src == srv && r.dst == addr && s_conn_t.map_or(false, |t| r.t_ns >= t) }).map(|r| r.t_ns);
             let start = own_first.map_or(t0, |o| o.max(t0));
             let deadline = start.saturating_add((22_000u64).max(*timeout_ms).saturating_mul(MS)).saturating_add(12 * gap + SEC);
             let terminal = evs.iter().find(|e| matches!(e.ev, Ev::Disconnect | Ev::Error(_)));
@@ -424,7 +462,7 @@ fn check_disconnect(w: &mut World, ci: usize, t_end_ns: u64) -> bool {
         // retry budget down to Error(Timeout).
         for (evs, name, steps) in [(&cev, "client", w.clients[ci].step_times.clone()), (&sev, "server", w.server.step_times.clone())] {
             let is_client = name == "client";
-            let own_first = w.wire.iter().find(|r| !r.injected && matches!(r.frame, Some(RFrame::Disconnect)) && if is_client { r.src == addr && r.dst == srv && r.t_ns >= created && r.t_ns <= c_gone } else { r.src == srv && r.dst == addr && s_conn_t.map_or(false, |t| r.t_ns >= t) }).map(|r| r.t_ns);
+            let own_first = w.wire.iter().find(|r| !r.injected && !r.refused && matches!(r.frame, Some(RFrame::Disconnect)) && if is_client { r.src == addr && r.dst == srv && r.t_ns >= created && r.t_ns <= c_gone } else { r.src == srv && r.dst == addr && s_conn_t.map_or(false, |t| r.t_ns >= t) }).map(|r| r.t_ns);
             let own_first = match own_first {
                 Some(t) => t,
                 None => continue,
@@ -482,12 +520,23 @@ fn check_disconnect(w: &mut World, ci: usize, t_end_ns: u64) -> bool {
     nontrivial
 }
 
+/// `send_errors`: the session runs with a send-fault plan (see `SendFaultPlan`): the operating
+/// system refuses sends of one or both sides, periodically and / or in bursts. A refused send is in
+/// the wire trace as a dropped frame flagged `refused`; every oracle stays on.
+fn maybe_send_faults(w: &mut World, seed: u64, params: &Params, horizon_ns: u64) {
+    if params.flag("send_errors") {
+        let mut r = Rng::new(seed ^ 0x5e4d_e440);
+        w.set_send_fault_plan(SendFaultPlan::random(&mut r, horizon_ns));
+    }
+}
+
 pub fn run_lifecycle(seed: u64, params: &Params, out: &mut ScnOut) {
     let mut rng = Rng::new(seed);
     let verbose = params.flag("verbose");
     let fault_ns = rng.range(2, 30) * SEC;
     let net = faulty_net(&mut rng, fault_ns, true);
     let mut w = World::new(seed, net, verbose);
+    maybe_send_faults(&mut w, seed, params, 40 * SEC);
     // `sock_errors`: the operating system refuses every n-th send (ENOBUFS: the frame is not
     // transmitted, uflow is told so and ignores it) and reports an error on every m-th receive call
     // (ECONNREFUSED after an ICMP error: the receive loop of that step ends early). Only the
@@ -1218,6 +1267,7 @@ pub fn run_ep_ideal(seed: u64, params: &Params, out: &mut ScnOut) {
     let verbose = params.flag("verbose");
     let latency = *rng.pick(&[0u64, 5, 40]);
     let mut w = World::new(seed, NetCfg::ideal(latency), verbose);
+    maybe_send_faults(&mut w, seed, params, 40 * SEC);
     // limits above 2^32 are legal (usize) and advertised as 2^32-1
     let allocs = [3_000usize, 20_000, 64_000, 300_000, 1_000_000, 1_000_000, 1 << 32, (1 << 33) + 5_000, usize::MAX];
     let c_alloc = *rng.pick(&allocs);
@@ -1435,7 +1485,7 @@ pub fn run_ep_ideal(seed: u64, params: &Params, out: &mut ScnOut) {
         if b < 1472.0 {
             continue; // C13 is stated for ceilings of at least one frame per second
         }
-        let tr: Vec<crate::hcsim::TxEvent> = w.wire.iter().filter(|r| r.src == src && !r.injected && matches!(r.frame, Some(RFrame::Data { .. }) | Some(RFrame::Acks { .. }) | Some(RFrame::Sync { .. }))).map(|r| crate::hcsim::TxEvent { t_ns: r.t_ns, len: r.len as u32, rtt_s: rtt, step_dt_ns: gap, after_app_flush: true }).collect();
+        let tr: Vec<crate::hcsim::TxEvent> = w.wire.iter().filter(|r| r.src == src && !r.injected && !r.refused && matches!(r.frame, Some(RFrame::Data { .. }) | Some(RFrame::Acks { .. }) | Some(RFrame::Sync { .. }))).map(|r| crate::hcsim::TxEvent { t_ns: r.t_ns, len: r.len as u32, rtt_s: rtt, step_dt_ns: gap, after_app_flush: true }).collect();
         let mut v = Vec::new();
         let mut cc = Counters::default();
         crate::hcsim::check_rate_trace(if dir == "client->server" { 0 } else { 1 }, b, &tr, &mut cc, &mut v);
@@ -1476,6 +1526,13 @@ pub fn run_ep_ideal(seed: u64, params: &Params, out: &mut ScnOut) {
     }
     let nontrivial = finished && (sent_c + sent_s) >= 100;
     w.finish();
+    if w.send_faults.is_some() {
+        // a send the operating system refused is not a fault of the network, but the packet it
+        // carried is gone all the same: the "ideal network" clauses (C05, C02, C06 pair, C07
+        // completion) have lost their premise; the byte accounting, crash, payload and heap
+        // verdicts have not
+        w.violations.retain(|v| matches!(v.prop, "C03" | "C13" | "C14" | "C01" | "C19"));
+    }
     world_out(out, &mut w, nontrivial, mix(seed, (c_alloc ^ s_alloc << 20) as u64), None);
 }
 
@@ -1681,6 +1738,7 @@ pub fn run_timers(seed: u64, params: &Params, out: &mut ScnOut) {
         net.phases.push(NetPhase { until_ns: horizon + SEC, loss: 0.0, dup: 0.0, delay_p: 0.0, delay_max_ms: 0, blackout_to_server: one_way != 1, blackout_to_clients: one_way != 2 });
     }
     let mut w = World::new(seed, net, verbose);
+    maybe_send_faults(&mut w, seed, params, 40 * SEC);
     let timeouts = [1000u64, 2000, 3000, 5000, 10_000, 20_000, 60_000, 120_000];
     // "never": the largest values the field can hold are legal configurations (nothing in
     // `is_valid` or the documentation excludes them) and mean that no silence is long enough
@@ -1914,7 +1972,9 @@ pub fn run_timers(seed: u64, params: &Params, out: &mut ScnOut) {
                 w.viol("C10", "handshake-timeout-missing", format!("client neither connected nor reported Error(Timeout) by t={} ms", (t_end - created) / MS));
             }
         }
-        for p in syns.windows(2) {
+        // (spacing is judged on what was really transmitted; the budget above counts attempts)
+        let syns_tx: Vec<u64> = w.wire.iter().filter(|r| !r.refused && r.src == addr && matches!(r.frame, Some(RFrame::Syn { .. }))).map(|r| r.t_ns).collect();
+        for p in syns_tx.windows(2) {
             if p[1] - p[0] + MS < 2 * SEC {
                 w.viol("C10", "handshake-resend-too-fast", format!("client resent its SYN after {} ms (< 2000)", (p[1] - p[0]) / MS));
             }
@@ -1948,18 +2008,22 @@ pub fn run_timers(seed: u64, params: &Params, out: &mut ScnOut) {
         let evs: Vec<EvRec> = if disc_by_client { w.clients[ci].events.clone() } else { w.server.events.iter().filter(|(a, _)| *a == addr).map(|(_, e)| e.clone()).collect() };
         let gap = if disc_by_client { w.clients[ci].max_step_gap_ns } else { w.server.max_step_gap_ns };
         let call = evs.iter().find(|e| matches!(e.ev, Ev::AppDisconnect | Ev::AppDisconnectNow)).cloned();
+        // attempts (a send the operating system refused is an attempt: it uses up a resend) ...
         let reqs: Vec<u64> = w.wire.iter().filter(|r| !r.injected && r.src == from && r.dst == to && matches!(r.frame, Some(RFrame::Disconnect))).map(|r| r.t_ns).collect();
+        // ... and what was really transmitted (spacing, count and lateness are judged on these)
+        let reqs_tx: Vec<u64> = w.wire.iter().filter(|r| !r.injected && !r.refused && r.src == from && r.dst == to && matches!(r.frame, Some(RFrame::Disconnect))).map(|r| r.t_ns).collect();
         if let (Some(call), Some(&t0)) = (call, reqs.first()) {
             w.c.inc("c10_disconnect_attempts_checked");
             let who = if disc_by_client { "client" } else { "server" };
-            for p in reqs.windows(2) {
+            let t0_tx = reqs_tx.first().copied().unwrap_or(u64::MAX / 4);
+            for p in reqs_tx.windows(2) {
                 if p[1] - p[0] + MS < 2 * SEC {
                     w.viol("C10", "disconnect-resend-too-fast", format!("{} repeated its Disconnect request after {} ms (< 2000): requests at {:?} ms", who, (p[1] - p[0]) / MS, reqs.iter().map(|t| t / MS).collect::<Vec<_>>()));
                     break;
                 }
             }
-            if reqs.len() > 11 {
-                w.viol("C10", "disconnect-resent-too-often", format!("{} sent {} Disconnect requests (the first plus at most 10 resends)", who, reqs.len()));
+            if reqs_tx.len() > 11 {
+                w.viol("C10", "disconnect-resent-too-often", format!("{} sent {} Disconnect requests (the first plus at most 10 resends)", who, reqs_tx.len()));
             }
             let end = evs.iter().find(|e| (e.t_ns, e.step_no) >= (call.t_ns, call.step_no) && matches!(e.ev, Ev::Disconnect | Ev::Error(_)));
             match end {
@@ -1968,13 +2032,13 @@ pub fn run_timers(seed: u64, params: &Params, out: &mut ScnOut) {
                     if reqs.len() != 11 || e.t_ns + MS < t0 + 22 * SEC {
                         w.viol("C10", "disconnect-timeout-before-budget", format!("{} gave up its disconnect attempt with Error(Timeout) at t={} ms, {} ms after its first request, having sent {} requests (budget: the first plus 10 resends 2 s apart = not before 22000 ms); disconnect called {} ms after Connect, {} SYN-ACKs had been lost", who, e.t_ns / MS, (e.t_ns - t0) / MS, reqs.len(), disc_delay / MS, lose_synack));
                     }
-                    if e.t_ns > t0 + 22 * SEC + 12 * gap + SEC {
+                    if e.t_ns > t0_tx.saturating_add(22 * SEC + 12 * gap + SEC) {
                         w.viol("C10", "disconnect-timeout-late", format!("{} gave up its disconnect attempt only {} ms after its first request (budget 22000 ms + 12 step intervals of at most {} ms)", who, (e.t_ns - t0) / MS, gap / MS));
                     }
                 }
                 Some(_) => {}
                 None => {
-                    if t_end > t0 + 22 * SEC + 12 * gap + SEC {
+                    if t_end > t0_tx.saturating_add(22 * SEC + 12 * gap + SEC) {
                         w.viol("C10", "disconnect-timeout-missing", format!("{} has no terminal event {} ms after its first Disconnect request", who, (t_end - t0) / MS));
                     }
                 }
@@ -1983,7 +2047,7 @@ pub fn run_timers(seed: u64, params: &Params, out: &mut ScnOut) {
     }
     // ---- keepalive: an idle connection on a loss-free network never times out (lost handshake
     // ACKs leave the client established long before the server is: not loss-free)
-    if !blackout && !disc_called && lose_ack == 0 {
+    if !blackout && !disc_called && lose_ack == 0 && w.send_faults.is_none() {
         let step_max = w.clients[ci].max_step_gap_ns.max(w.server.max_step_gap_ns) / MS;
         // A keepalive is a sync frame, and every sync frame is answered with an (empty) ack frame:
         // the keepalives of EITHER side keep BOTH sides supplied with frames. So each side reads a
@@ -2234,6 +2298,7 @@ pub fn run_disconnect(seed: u64, params: &Params, out: &mut ScnOut) {
         net.phases.push(NetPhase { until_ns: from + 100 * SEC, loss: 0.0, dup: 0.0, delay_p: 0.0, delay_max_ms: 0, blackout_to_server: dir != 1, blackout_to_clients: dir != 2 });
     }
     let mut w = World::new(seed, net, verbose);
+    maybe_send_faults(&mut w, seed, params, 40 * SEC);
     let mk = |rng: &mut Rng| uflow::EndpointConfig {
         max_send_rate: *rng.pick(&[100_000usize, 2_000_000]),
         max_receive_rate: *rng.pick(&[100_000usize, 2_000_000]),
@@ -2683,6 +2748,7 @@ pub fn run_limits(seed: u64, params: &Params, out: &mut ScnOut) {
         _ => {}
     }
     let mut w = World::new(seed, net, verbose);
+    maybe_send_faults(&mut w, seed, params, 40 * SEC);
     let mut xrng = Rng::new(seed ^ 0xc055);
     let mk = |rng: &mut Rng| uflow::EndpointConfig {
         max_send_rate: 2_000_000,
@@ -2913,6 +2979,7 @@ pub fn run_amplify(seed: u64, params: &Params, out: &mut ScnOut) {
     let mut rng = Rng::new(seed);
     let verbose = params.flag("verbose");
     let mut w = World::new(seed, NetCfg::ideal(rng.range(0, 20)), verbose);
+    maybe_send_faults(&mut w, seed, params, 40 * SEC);
     let full = rng.chance(0.3);
     let long_run = Rng::new(seed ^ 0x10e6).chance(0.2);
     let long_timeout: u64 = if long_run { *Rng::new(seed ^ 0x10e7).pick(&[120_000u64, 600_000, 3_600_000]) } else { 20_000 };
